@@ -1378,7 +1378,8 @@ class EdgeQLSourceGenerator(codegen.SourceGenerator):
         self._visit_DropObject(node, 'MIGRATION')
 
     def visit_ResetSchema(self, node: qlast.ResetSchema) -> None:
-        self._write_keywords(f'RESET SCHEMA TO {node.target}')
+        self._write_keywords('RESET SCHEMA TO ')
+        self.visit(node.target)
 
     def visit_CreateModule(self, node: qlast.CreateModule) -> None:
         self._visit_CreateObject(node, 'MODULE')
